@@ -167,6 +167,8 @@ class C07(Check):
         nobj = len(spec["objectives"])
         if nobj > 1:
             v.probe("multi_objective")
+            if any(o.get("weight", 1) < 0 for o in spec["objectives"]):
+                v.probe("negative_weight")
         evA = next((e for e in result["events"] if e["client"] == "A" and e["op"] == "solve"), None)
         evB = next((e for e in result["events"] if e["client"] == "B" and e["op"] == "solve"), None)
         evX = next((e for e in result["events"] if e["client"] == "X" and e["op"] == "solve"), None)
